@@ -372,10 +372,34 @@ def run_direct(ctx, report, case, label="direct", compare_model=True):
     obs = wta.observe(out)
     res = eval_side(ctx, report, case, label, before["cost_volume"].astype(np.float64), disps, is_max, lo, hi, inv_cfg,
                     before, after, obs, compare_model, tag)
+    written_through_result(report, case, cv, out, after, obs, tag)
     rows, cols = case["rows"], case["cols"]
     if rows > BLOCK or cols > BLOCK:
         crop_independent(report, case, cost, disps, is_max, flags, inv_cfg, obs["disparity_map"])
     return res
+
+
+def written_through_result(report, case, cv, out, after, obs, tag=""):
+    """a two-step history: the steps after `disparity` (validation, filter, refinement) WRITE flags and disparities into the
+    returned dataset.  The cost-volume dataset must not follow: its validity mask keeps the flags it had (`flags_carried`
+    is about two datasets, not one array seen twice) and `cv["disp_indices"]` keeps the map it saved."""
+    report.hit("flags_carried")
+    try:
+        out["validity_mask"].data[...] = out["validity_mask"].data ^ 1
+        out["disparity_map"].data[...] = 12345.0
+    except Exception as exc:  # pylint: disable=broad-except
+        report.fail("flags_carried", "result_not_writable" + tag, case, {"exception": f"{type(exc).__name__}: {exc}"},
+                    "the returned dataset cannot be written by the next steps")
+        return
+    if not np.array_equal(cv["validity_mask"].data, after["validity_mask"]):
+        bad = np.argwhere(cv["validity_mask"].data != after["validity_mask"])[0].tolist()
+        report.fail("flags_carried", "cost_volume_flags_follow_the_result" + tag, case,
+                    {"pixel": bad, "cost_volume_flag_before": int(after["validity_mask"][tuple(bad)]),
+                     "cost_volume_flag_after_writing_the_result": int(cv["validity_mask"].data[tuple(bad)])},
+                    "flags written into the returned validity mask appear in the cost volume's validity mask (one array, two datasets)")
+    if "disp_indices" in cv.data_vars and not np.array_equal(np.array(cv["disp_indices"].data), obs["disparity_map"], equal_nan=True):
+        report.fail("cv_unchanged", "disp_indices_follow_the_result" + tag, case, {"side": "direct"},
+                    "disparities written into the returned map appear in cv['disp_indices']")
 
 
 def run_machine_case(ctx, report, case, compare_model=True):
